@@ -133,18 +133,19 @@ def main():
             failed_by_fn.setdefault(f["function"], []).append(f)
         n_obl = 0
         for fname, info in sorted(r["functions"].items()):
-            if fname not in unit_fn_names:
+            if fname.split("#")[0] not in unit_fn_names:
                 continue  # prelude obligations are not counted
-            tags = ftags.get(fname, set())
+            tags = ftags.get(fname.split("#")[0], set())
             relevant = (not tags) or (pid in tags)
             if not relevant:
                 continue
             ob = "V:%s::%s" % (uname, fname)
             obligations.append(ob)
             n_obl += 1
-            fails = failed_by_fn.get(fname, [])
+            base = fname.split("#")[0]
+            fails = failed_by_fn.get(base, []) if "#" not in fname else []
             mine = [f for f in fails if pid in tags_for_failure(gen, f, uprops, ftags)]
-            if info["ok"] or not mine:
+            if not mine:
                 if info["ok"]:
                     discharged.append(ob)
                 else:
@@ -216,12 +217,13 @@ def main():
             continue
         seen.add(key)
         rp = os.path.join(RPD, pid, re.sub(r"\W+", "_", ob) + ".txt")
-        with open(rp, "w") as fh:
+        with open(rp, "a" if any(("obligation=%s " % ob) in l for l in out_lines) else "w") as fh:
             fh.write("property: %s\nfailed obligation: %s\nkind: %s\nfailed clause: %s\n" % (pid, ob, f["kind"], f["clause"]))
             fh.write("verifier: verus (z3); no counterexample is produced by this back end: no-failing-input-found\n")
             fh.write("generated input: %s\nsources: %s\n\n--- verifier output ---\n%s\n" % (
                 r.get("generated"), "; ".join(r["stats"]["sources"]), f["text"]))
-        out_lines.append("VIOLATION property=%s replay=%s obligation=%s kind=%s no-failing-input-found" % (pid, rp, ob, f["kind"].replace(" ", "-")))
+        if not any(("obligation=%s " % ob) in l for l in out_lines):
+            out_lines.append("VIOLATION property=%s replay=%s obligation=%s kind=%s no-failing-input-found" % (pid, rp, ob, f["kind"].replace(" ", "-")))
         exit_code = 1
     for (ob, kr) in kviol:
         rp = os.path.join(RPD, pid, re.sub(r"\W+", "_", ob) + ".rs")
